@@ -20,6 +20,30 @@ pub mod reexport {
 #[path = "/verif/inlib/proj.rs"]
 pub mod proj;
 
+#[path = "/verif/inlib/filter.rs"]
+pub mod filter;
+
+#[path = "/verif/inlib/repl.rs"]
+pub mod repl;
+
+#[path = "/verif/inlib/txn.rs"]
+pub mod txn;
+
+#[path = "/verif/inlib/oauth.rs"]
+pub mod oauth;
+
+#[path = "/verif/inlib/dirsrv.rs"]
+pub mod dirsrv;
+
+#[path = "/verif/inlib/token.rs"]
+pub mod token;
+
+#[path = "/verif/inlib/auth.rs"]
+pub mod auth;
+
+#[path = "/verif/inlib/access.rs"]
+pub mod access;
+
 use crate::repl::ruv::{RangeDiffStatus, ReplicationUpdateVector};
 use std::collections::BTreeMap;
 use std::time::Duration;
@@ -67,3 +91,6 @@ pub fn range_diff(
         RangeDiffStatus::NoRUVOverlap => RangeDiffOut { status: "nooverlap", ok: e.clone(), lag: e.clone(), adv: e },
     }
 }
+
+#[path = "/verif/inlib/store.rs"]
+pub mod store;
